@@ -234,11 +234,11 @@ def __construct_expression_tree_with_list(tokens: List[Union[str, List]]) -> Exp
 
     # Initialize the two stacks
     operand_stack = []  # type: List[Union[Expression, str]]
-    operator_stack = ["base"]  # type: List[str]
+    operator_stack = [""]  # type: List[str]  # the empty string marks the base of the stack
 
     # Define the order of operations
     precedence = {
-        "base": 0,
+        "": 0,
         "*": 1,
         "/": 1,
         "^": 2
